@@ -85,6 +85,11 @@ pub struct LookupSpec {
     pub table: Vec<Vec<Fe>>,
     /// advice column of each input slot
     pub input_cols: Vec<usize>,
+    /// `Some(r)`: a disabled input takes the value of table row r (the input
+    /// expression is q*a + (1-q)*table[r]) and the table need not contain the
+    /// all-zero tuple; `None`: a disabled input is zero and row 0 is all zeros
+    #[serde(default)]
+    pub default_row: Option<usize>,
 }
 
 #[derive(Clone, Debug, Serialize, Deserialize, PartialEq)]
@@ -345,7 +350,15 @@ pub fn configure_spec(meta: &mut ConstraintSystem<Fq>, spec: &Spec) -> GenConfig
                     .enumerate()
                     .map(|(j, ic)| {
                         let a = m.query_advice(advice[*ic], Rotation::cur());
-                        (q.clone() * a, tc[j])
+                        match l.default_row {
+                            None => (q.clone() * a, tc[j]),
+                            Some(r) => (
+                                q.clone() * a
+                                    + (Expression::Constant(Fq::ONE) - q.clone())
+                                        * Expression::Constant(l.table[r][j].0),
+                                tc[j],
+                            ),
+                        }
                     })
                     .collect()
             });
@@ -801,7 +814,16 @@ pub fn gen_spec(rng: &mut Prng, o: GenOpts) -> Spec {
         for _ in 1..nrows {
             table.push((0..w).map(|_| Fe(small_or_any(rng))).collect());
         }
-        spec.lookups.push(LookupSpec { any: rng.chance(1, 3), table, input_cols });
+        let any = rng.chance(1, 3);
+        let mut default_row = None;
+        if !any && rng.chance(1, 2) {
+            // a table without the all-zero tuple
+            for row in table.iter_mut() {
+                row[0] = Fe(Fq::from(1 + rng.below(6)));
+            }
+            default_row = Some(rng.usize(table.len()));
+        }
+        spec.lookups.push(LookupSpec { any, table, input_cols, default_row });
     }
 
     // make sure the constraint system fits at k; otherwise raise k
